@@ -669,7 +669,20 @@ fn runtime_program(rng: &mut Rng) -> String {
             _ => format!("(-{a})"),
         }
     }
-    match rng.below(6) {
+    match rng.below(8) {
+        6 | 7 => {
+            // long-running but terminating evaluations (thousands of steps): anything that meters
+            // evaluation - a step or time budget, periodic work - is only consulted on these
+            let n = rng.range(80, 1500);
+            match rng.below(4) {
+                0 => format!("loop : (int -> int) = n => if n == 0 then 0 else loop (n - 1)\nloop {n}\n"),
+                1 => format!("sum : (int -> int) = n => if n == 0 then 0 else n + sum (n - 1)\nsum {n}\n"),
+                2 => format!("fact : (int -> int) = n => if n == 0 then 1 else n * fact (n - 1)\nfact {}\n", n / 8 + 5),
+                _ => format!(
+                    "go : (int -> int -> int) = acc => n => if n == 0 then acc else go (acc + n * n) (n - 1)\ngo 0 {n}\n"
+                ),
+            }
+        }
         0 | 1 => {
             // several distinct divisions by zero in one expression
             let depth = rng.range(1, 4);
@@ -835,6 +848,75 @@ fn many_errors_program(rng: &mut Rng) -> String {
     }
 }
 
+/// W9: dependently typed programs: a type family over an abstract type, consumers and producers
+/// of its members, and lambdas whose parameters are only partly annotated, so that parameter
+/// types are *inferred* to be dependent types (solved holes under binders). Used both accepted
+/// (elaborated term and type are printed) and rejected (the diagnostics quote such types).
+fn dependent_program(rng: &mut Rng) -> String {
+    let arity = rng.range(1, 3);
+    let xs: Vec<String> = (0..arity).map(|i| format!("x{i}")).collect();
+    let fam_args = xs.iter().map(|_| "a").collect::<Vec<_>>().join(" -> ");
+    let binders = |names: &[String]| names.iter().map(|x| format!("({x} : a) -> ")).collect::<String>();
+    let result = *rng.pick(&["int", "bool", "a", "type"]);
+    let mut text = String::from("f =\n  (a : type) =>\n");
+    text.push_str(&format!("  (p : {fam_args} -> type) =>\n"));
+    text.push_str(&format!("  (user : {}p {} -> {result}) =>\n", binders(&xs), xs.join(" ")));
+    let with_mk = rng.chance(1, 2);
+    if with_mk {
+        text.push_str(&format!("  (mk : {}p {}) =>\n", binders(&xs), xs.join(" ")));
+    }
+    let with_sink = rng.chance(2, 3);
+    let sink_ty = *rng.pick(&["int -> int", "bool -> int", "(int -> int) -> int", "a -> a", "type -> int"]);
+    if with_sink {
+        text.push_str(&format!("  (n : {sink_ty}) =>\n"));
+    }
+    // the lambda: its binders, some annotated, some not, the last one (h) usually not
+    let ys: Vec<String> = (0..arity).map(|i| format!("y{i}")).collect();
+    let mut lambda = String::new();
+    for y in &ys {
+        match rng.below(5) {
+            0 => lambda.push_str(&format!("{y} => ")),
+            1 => lambda.push_str(&format!("({y} : _) => ")),
+            _ => lambda.push_str(&format!("({y} : a) => ")),
+        }
+    }
+    let h_binder = match rng.below(4) {
+        0 => format!("(h : p {}) => ", ys.join(" ")),
+        1 => "(h : _) => ".to_owned(),
+        _ => "h => ".to_owned(),
+    };
+    lambda.push_str(&h_binder);
+    // body: apply the consumer, possibly with permuted / repeated arguments, possibly under a let
+    let mut args = ys.clone();
+    if arity > 1 && rng.chance(1, 3) {
+        let i = rng.below(arity);
+        let j = rng.below(arity);
+        args.swap(i, j);
+    }
+    if arity > 1 && rng.chance(1, 6) {
+        args[0] = args[1].clone();
+    }
+    let call = format!("user {} h", args.join(" "));
+    let inner = match rng.below(4) {
+        0 => format!("(r = {call}; r)"),
+        1 if with_mk => format!("user {} (mk {})", ys.join(" "), args.join(" ")),
+        _ => call,
+    };
+    lambda.push_str(&inner);
+    let body = match rng.below(5) {
+        0 | 1 if with_sink => format!("n ({lambda})"),
+        2 => format!("({lambda})"),
+        3 if with_mk => {
+            let zs: Vec<String> = (0..arity).map(|i| format!("z{i}")).collect();
+            let zb: String = zs.iter().map(|z| format!("({z} : a) => ")).collect();
+            format!("{zb}({lambda}) {} (mk {})", zs.join(" "), zs.join(" "))
+        }
+        _ => lambda,
+    };
+    text.push_str(&format!("    {body}\n\nf\n"));
+    text
+}
+
 /// Generated case number `index` of the stream; `corpus` is W1.
 pub fn generate(rng: &mut Rng, corpus: &[String]) -> Case {
     // Swarm: the mix is itself drawn per case.
@@ -875,8 +957,9 @@ pub fn generate(rng: &mut Rng, corpus: &[String]) -> Case {
             Case { family: "W6-rich-accepted", source }
         }
         69..=73 => Case { family: "W6-holes", source: holes_program(rng) },
-        74..=80 => Case { family: "W8-runtime", source: runtime_program(rng) },
-        81..=92 => Case { family: "W7-composite", source: composite(rng, corpus) },
+        74..=79 => Case { family: "W8-runtime", source: runtime_program(rng) },
+        80..=85 => Case { family: "W9-dependent", source: dependent_program(rng) },
+        86..=93 => Case { family: "W7-composite", source: composite(rng, corpus) },
         _ => {
             // splice two corpus programs at token granularity
             let a = rough_tokens(&base_from_corpus(rng));
